@@ -142,3 +142,55 @@ def attr_loads(fn):
                 and isinstance(n.value, ast.Name) and n.value.id == "self":
             out.add(n.attr)
     return out
+
+
+def single_defs(fn):
+    """locals with exactly one definition `name = <expr>` in fn (nested functions included) that is not inside a
+    loop and whose expression reads only attributes of self, constants and other such locals: name -> expr.
+    Substituting them makes syntactic rules independent of hoisting an expression into a local."""
+    count, expr, in_loop = {}, {}, set()
+    for l in ast.walk(fn):
+        if isinstance(l, (ast.For, ast.While)):
+            for n in ast.walk(l):
+                if isinstance(n, ast.Name) and isinstance(n.ctx, ast.Store):
+                    in_loop.add(n.id)
+    for n in ast.walk(fn):
+        if isinstance(n, ast.Name) and isinstance(n.ctx, (ast.Store, ast.Del)):
+            count[n.id] = count.get(n.id, 0) + 1
+        if isinstance(n, ast.Assign) and len(n.targets) == 1 and isinstance(n.targets[0], ast.Name):
+            expr[n.targets[0].id] = n.value
+        if isinstance(n, ast.arg):
+            count[n.arg] = count.get(n.arg, 0) + 2
+    out = {}
+    changed = True
+    while changed:
+        changed = False
+        for name, e in expr.items():
+            if name in out or count.get(name) != 1 or name in in_loop:
+                continue
+            ok = True
+            for x in ast.walk(e):
+                if isinstance(x, ast.Name) and x.id != "self" and x.id not in out:
+                    ok = False
+                if isinstance(x, (ast.Call, ast.Subscript, ast.Lambda, ast.IfExp)):
+                    ok = False
+            if ok:
+                out[name] = e
+                changed = True
+    return out
+
+
+class SubstDefs(ast.NodeTransformer):
+    def __init__(self, defs):
+        self.defs = defs
+
+    def visit_Name(self, n):
+        if isinstance(n.ctx, ast.Load) and n.id in self.defs:
+            import copy
+            return self.visit(copy.deepcopy(self.defs[n.id]))
+        return n
+
+
+def subst_defs(node, defs):
+    import copy
+    return SubstDefs(defs).visit(copy.deepcopy(node)) if defs else node
